@@ -240,6 +240,22 @@ def call_site(chk):
         not any('npstart' in x or 'npout' in x for x in t)
     chk.check(ok9, 'C01-R9', CAT, CLS + '_load_halo_lc_subsamples', 'columns of lc_pid_rv.asdf added unmodified; index columns untouched', '',
               'light-cone subsamples are no longer the unmodified columns of the single file', node=lc)
+    # the stored npstartA/npoutA of a light-cone halo file index the particle file of ITS OWN directory, and only the particle file of
+    # the first file's directory is read (the mixed-catalog test is waived for light cones): a list of files from several directories
+    # must be refused when subsamples are requested, otherwise every later file's halos get slices of the first directory's particles
+    sfp = src.func(CAT, CLS + '_setup_file_paths')
+    waived = any(isinstance(n, ast.If) and 'halo_lc' in unparse(n.test) and any(isinstance(x, ast.Raise) for x in ast.walk(n)) for n in walk_no_nested(sfp))
+    refuse = []
+    for n in walk_no_nested(lc):
+        if isinstance(n, ast.For) and unparse(n.iter) in ('self.halo_fns',):
+            for x in ast.walk(n):
+                if isinstance(x, ast.If) and any(isinstance(r, ast.Raise) for r in x.body) and 'parent' in unparse(x.test) and 'groupdir' in unparse(x.test):
+                    refuse.append(x)
+    before_load = bool(refuse) and all(r.lineno < min([n.lineno for n in walk_no_nested(lc) if isinstance(n, ast.With)] or [10**9]) for r in refuse)
+    chk.check((not waived) or before_load, 'C01-R9', CAT, CLS + '_load_halo_lc_subsamples',
+              'light cone: halo files from another directory than the particle file are refused before the particle file is read', '',
+              'a list of light-cone halo files from several directories is accepted (the mixed-catalog test is waived for light cones) while only '
+              '<first directory>/lc_pid_rv.asdf is loaded: halos of the later files are given slices of the first directory\'s particles', node=lc, nontrivial=False)
 
 
 def _guard(s):
